@@ -20,6 +20,8 @@ CLAIMED = {
              ref='section 4 C05', note=COMMON_NOTE + "every await is a scheduling point (heap havocked except the request objects the coroutine owns: A-IMMUT); the server behaviour is arbitrary within message well-formedness; Message.copy is an assumed contract; loss/duplication of single exchanges is C03/C04."),
  'C06': dict(text="Deductive proof of the block-wise server helpers: Block1Spool.feed_and_take (pass-through, new assembly on block 0, append only at the exact offset, 4.08 for unknown/gap/overlap, 4.00 for a size mismatch, 2.31 echoing the option for intermediate blocks, complete body only after the final block), Message._append_request_block, Block2Cache.extract_or_insert (one rendering per block-0 request, later blocks are exact slices of the cached rendering via _extract_block or 4.08/4.00, stale renderings dropped), the block key, and TimeoutDict with a ghost clock (entries survive at least `timeout` after their last use and are discarded within twice that).",
              ref='section 4 C06', note=COMMON_NOTE + "T-LOOP with ghost clock (timer fires exactly when due); A-TYPEINV (block option / endpoint value ranges); A-STORED (stored messages are not the request being processed); get_cache_key is an uninterpreted function of the options; timeout == MAX_TRANSMIT_WAIT at the two construction sites is not checked."),
+ 'C07': dict(text="Deductive proof on the generator Request._run (every `yield` a scheduling point delivering an arbitrary pipe event): a notification is handed to the observation iff it is fresher than the last one handed over by the RFC 7641 section 3.4 predicate (spec function fresh, arrival time and serial number of the last DELIVERED notification updated exactly on delivery), the response future is completed exactly once at the first event, the observation gets at most one terminal signal and nothing is delivered after it; plus the hand-over cell of the async iterator (__anext__ keeps a future installed while it was suspended). Eventual delivery through the lossy iterator is not decided.",
+             ref='section 4 C07', note=COMMON_NOTE + "wall-clock reads are arbitrary reals; events are arbitrary but well-formed (exception events are last: Pipe.add_exception); BlockwiseRequest._run_observation not covered."),
  'C09': dict(text="Deductive proof of the error-to-response chain: the event translator of error_to_message forwards message events unchanged, sends a RenderableError as rendered by its own to_message (own code, UTF-8 diagnostic), and turns a failing/None renderer and every other exception into a newly constructed bare 5.00 without payload or options, never inspecting non-renderable exceptions; run_driving_pipe turns every Exception of the render coroutine into exactly one exception event; resource.Resource.render answers non-request codes / missing handlers with 4.05 classes, fills in the default success code by method only when unset and copies No-Response only when unset; a context without site answers one final 4.04; Site.render 4.04 for unknown paths; interfaces.Resource._render_to_pipe adds exactly one final response.",
              ref='section 4 C09', note=COMMON_NOTE + "Pipe is an interface object here (A-PIPE: the exactly-once delivery inside Pipe._add_event is not yet under contract); handler methods are unknown callables whose result is an arbitrary message or a non-message; every await havocks the heap except the request."),
  'C10': dict(text="Deductive proof that dispatch_message realises the RFC 7252 reaction table for every (type, code class), that _process_request/send_message acknowledge a CON request exactly once (piggy-backed or empty ACK, timer callback simulated), apply the RFC 7967 No-Response mask, choose the message type as specified and never hand a CON to a multicast destination to the transport.",
